@@ -169,6 +169,13 @@ PRESERVING = [
     ("C10", "P-adjacency-flag-kept-after-neighbour-left", L,
      "            la._adj_right_same_direction = (\n                None\n                if la.adj_right_same_direction is None or la.adj_right not in existing_ids\n                else la.adj_right_same_direction\n            )\n",
      "            la._adj_right_same_direction = la.adj_right_same_direction\n", 6000),
+    # NOTE: "transform the cached occupancies instead of dropping them" is NOT property preserving on this library:
+    # Polygon.rotate_translate_local rotates about the polygon's centroid, so for polygon shapes whose centroid is
+    # not the reference point a freshly computed occupancy differs from the rigidly moved old one (C04/C05 territory;
+    # tried as a preserving edit, rightly reported by C11, therefore not listed here).
+    ("C11", "P-network-index-rebuilt-on-every-lookup", L,
+     "        shapely_points = [ShapelyPoint(p) for p in point_list]\n",
+     "        self._buffered_polygons = {i: la.polygon.shapely_object for i, la in self._lanelets.items()}\n        self._create_strtree()\n        shapely_points = [ShapelyPoint(p) for p in point_list]\n", 1600),
     ("C09", "P-lanelet-id-freed-before-network-removal", S,
      "            self.lanelet_network.remove_lanelet(la.lanelet_id)\n            self._id_set.remove(la.lanelet_id)\n",
      "            self._id_set.remove(la.lanelet_id)\n            self.lanelet_network.remove_lanelet(la.lanelet_id)\n", 4000),
